@@ -342,7 +342,10 @@ pub fn run_append_random(out: &mut Out, cfg: &Cfg, seed: u64, n: usize, no_tails
 }
 
 fn word(r: &mut Rng) -> Unifiable {
-    match r.below(9) { 0 => atom!("Hello"), 1 => atom!("world"), 2 => atom!(","), 3 => atom!("."), 4 => atom!("?"), 5 => atom!("!"), 6 => SInteger(42), 7 => atom!("a b"), _ => atom!("x") }
+    match r.below(13) { 0 => atom!("Hello"), 1 => atom!("world"), 2 => atom!(","), 3 => atom!("."), 4 => atom!("?"), 5 => atom!("!"), 6 => SInteger(42), 7 => atom!("a b"),
+        // values that only look like punctuation: several marks, marks inside a word, the empty text
+        8 => atom!("?!"), 9 => atom!(*r.pick(&[",.", ".?", "...", "!?", ",.?!", "!!", "?"])), 10 => atom!(""), 11 => atom!(*r.pick(&["a,", ".b", "x?y", "-", ";", ":"])),
+        _ => atom!("x") }
 }
 fn join_expected(words: &[Unifiable]) -> String {
     let mut out = String::new(); let mut first = true;
